@@ -295,6 +295,15 @@ func (i *interpreter) scaledParts(x *smt.Term, cval uint64) (a, b *smt.Term, ok 
 		sx, sc := x.SignedVal(), int64(cval)
 		return c.BV(uint64(sx/sc), 64), c.BV(uint64(sx%sc), 64), true
 	}
+	if x.Op == smt.OBvMul {
+		// a*c + 0
+		if x.Args[0].IsConst() && x.Args[0].Val == cval {
+			return x.Args[1], c.BV(0, 64), true
+		}
+		if x.Args[1].IsConst() && x.Args[1].Val == cval {
+			return x.Args[0], c.BV(0, 64), true
+		}
+	}
 	if x.Op != smt.OBvAdd {
 		return nil, nil, false
 	}
@@ -314,6 +323,14 @@ func (i *interpreter) scaledParts(x *smt.Term, cval uint64) (a, b *smt.Term, ok 
 
 // scaleConstOf returns the constant c if x has the shape a*c + b.
 func scaleConstOf(x *smt.Term) (uint64, bool) {
+	if x.W == 64 && x.Op == smt.OBvMul {
+		if x.Args[0].IsConst() && int64(x.Args[0].Val) > 1<<16 {
+			return x.Args[0].Val, true
+		}
+		if x.Args[1].IsConst() && int64(x.Args[1].Val) > 1<<16 {
+			return x.Args[1].Val, true
+		}
+	}
 	if x.Op != smt.OBvAdd || x.W != 64 {
 		return 0, false
 	}
@@ -403,7 +420,7 @@ func (i *interpreter) compareScaled(op string, x, y *smt.Term) (*smt.Term, bool)
 // |b| < c and that a*c cannot overflow, quotient and remainder are a and b up to a carry of one,
 // with no multiplication to invert.  The two side conditions are discharged by the solver.
 func (i *interpreter) divmodOfScaledSum(x *smt.Term, cval uint64, signed bool) (*smt.Term, *smt.Term, bool) {
-	if !signed || x.Op != smt.OBvAdd || x.W != 64 || int64(cval) <= 1 {
+	if !signed || (x.Op != smt.OBvAdd && x.Op != smt.OBvMul) || x.W != 64 || int64(cval) <= 1 {
 		return nil, nil, false
 	}
 	c := i.ctx
